@@ -257,6 +257,30 @@ func selfTest(ld *Loader) string {
 	return ""
 }
 
+// failsAgain runs one vector natively a second time and reports whether obligation f fails
+// again: a failure the encoding did not predict is reported only when it is reproducible
+// (oracles that involve time - settled goroutine counts, a driver that returns late - could
+// otherwise raise an alarm on a loaded machine).
+func failsAgain(bin, verifDir, harness string, vf vectorFile, f string) bool {
+	tf, err := os.CreateTemp(filepath.Join(verifDir, "bin"), "again*.json")
+	if err != nil {
+		return false
+	}
+	tf.Close()
+	defer os.Remove(tf.Name())
+	writeVector(tf.Name(), vf)
+	res, _, _ := runNative(bin, verifDir, harness, []string{tf.Name()}, 4*time.Minute, 1)
+	if len(res) == 0 {
+		return false
+	}
+	for _, g := range res[0].Failed {
+		if g == f {
+			return true
+		}
+	}
+	return false
+}
+
 func cmdCheck(args []string) {
 	fs := flag.NewFlagSet("check", flag.ExitOnError)
 	verifDir := fs.String("verif", "/verif", "verif directory")
@@ -435,7 +459,8 @@ func cmdCheck(args []string) {
 				} else {
 					mismatch++
 					for _, f := range r.Failed {
-						if _, isKnown := knownByKey[f]; !isKnown && r.Outcome == "done" {
+						if _, isKnown := knownByKey[f]; !isKnown && r.Outcome == "done" &&
+							failsAgain(nat, *verifDir, s.Name, vectorFile{Harness: s.Name, Pkg: s.Pkg, Vars: hr.PassVectors[i].Vars, Params: params}, f) {
 							// the real code fails an obligation on an input the encoding let pass
 							h := sha1.Sum([]byte(fmt.Sprint(f, hr.PassVectors[i].Vars)))
 							rp := filepath.Join(*verifDir, "replays", prop, fmt.Sprintf("%s-%x.json", sanitize(f), h[:4]))
@@ -529,7 +554,7 @@ func cmdCheck(args []string) {
 				// harness, only not the one the encoding predicted (the encoding and the
 				// code disagree somewhere on this path): the native failure is the finding
 				for _, f := range nativeFailed {
-					if _, isKnown := knownByKey[f]; !isKnown {
+					if _, isKnown := knownByKey[f]; !isKnown && failsAgain(nat, *verifDir, s.Name, vf, f) {
 						key, confirmed = f, true
 						vf.Expect, vf.Kind = f, "assert"
 						vf.Detail = "native run of the solver's input; the encoding predicted " + c.Obligation
